@@ -81,7 +81,7 @@ def run_case(case):
     model, env, ext, wrap = build(case)
     kind = case["kind"]
     agents = []          # (agent, joined order)
-    for i, a in enumerate(case["agents"][:8]):
+    for i, a in enumerate(case["agents"][:300]):
         pos = [clampin(kind, int(v), ext[ax]) for ax, v in enumerate(a["pos"])]
         ag = Agent(f"a{i}", model)
         try:
@@ -95,7 +95,7 @@ def run_case(case):
 
     def change(mv):
         if mv.get("add") is not None:                      # a newcomer joins (possibly right after somebody left)
-            if len(resident) >= 8:
+            if len(resident) >= 300:
                 return
             pos = [clampin(kind, int(v), ext[ax]) for ax, v in enumerate(mv["add"])]
             ag = Agent(f"a{counter[0]}", model)
@@ -208,6 +208,8 @@ def run_case(case):
         # the query must not disturb the environment
     if [a.id for a in env] != [a.id for a in resident]:
         raise Violation("environment-disturbed", f"environment holds {[a.id for a in env]}, expected {[a.id for a in resident]}")
+    if len(agents) > 32:
+        labels.add("population>32")
     return {"nontrivial": nontrivial, "labels": sorted(labels) + [kind, "wrap" if wrap else "nowrap"], "excluded": masked}
 
 
@@ -278,6 +280,11 @@ def strategy(tier):
                     script.append({"c": {"a": a, "remove": True}})
                     script.append({"c": {"add": pos3}})
             script.append({"q": q})
+        if draw(st.integers(0, 13)) == 0:            # a crowd whose size sits on / next to a block size
+            from vf.fixtures import near_pow2
+            target = draw(near_pow2(31, 130))
+            while len(agents) < target:
+                agents.append({"pos": [agent_coord(ax) for ax in range(3)]})
         return {"kind": kind, "ext": ext, "wrap": wrap, "agents": agents, "moves": moves, "script": script}
     return case()
 
